@@ -121,9 +121,9 @@ SelfOK == ~Wanted \/ \A o \in OptSet : SelfFor(o)
 \* ---------------------------------------------------------------- bounded alphabets
 \*   a 97  b 98  . 46  / 47  - 45  A 65  * 42  ? 63  [ 91  ] 93  ! 33  { 123  } 125  , 44  \ 92
 CharWords == {<<c>> : c \in {97, 98, 46, 47, 45, 42, 63, 91, 93, 33, 123, 125, 44, 92}}
-\*  a b . / - ? * **/ /** /**/ [ab] [!a] {a,b.} \*
+\*  a b . / - ? * **/ /** /**/ [ab] [!a] [a-a] {a,b.} \*
 TokWords == {<<97>>, <<98>>, <<46>>, <<47>>, <<45>>, <<63>>, <<42>>, <<42, 42, 47>>, <<47, 42, 42>>,
-             <<47, 42, 42, 47>>, <<91, 97, 98, 93>>, <<91, 33, 97, 93>>, <<123, 97, 44, 98, 46, 125>>,
+             <<47, 42, 42, 47>>, <<91, 97, 98, 93>>, <<91, 33, 97, 93>>, <<91, 97, 45, 97, 93>>, <<123, 97, 44, 98, 46, 125>>,
              <<92, 42>>}
 \*  a . / * **/ /** /**/ [a-b] {,.a} {a/,*}
 TokWords2 == {<<97>>, <<46>>, <<47>>, <<42>>, <<42, 42, 47>>, <<47, 42, 42>>, <<47, 42, 42, 47>>,
